@@ -26,6 +26,33 @@ def gen_case(rng, i):
     return c
 
 
+def long_window_parseval(ctx, rng):
+    """Parseval for windows longer than 2**15 samples at the FFT length the code chooses by itself (zero padding to the next power of two)"""
+    from scipy.signal.windows import tukey
+    for L in [int(x) for x in rng.choice([32769, 36001, 40001, 46341, 50001, 65537, 70001], ctx.budget(2, 7), replace=False)]:
+        dt = 0.01; w = 0.1
+        rec = dict(dt=dt, deg=0.0, ns=rng.normal(size=L).tolist(), ew=rng.normal(size=L).tolist(), vt=rng.normal(size=L).tolist())
+        c = dict(family="psd", smoothing=dict(operator="konno_and_ohmachi", bandwidth=40.0, center_frequencies_in_hz=[1.0, 5.0, 20.0]), width=w, fft=None,
+                 policy="keeping_majority_time_step", records=[rec], psd_smoothing=False)
+        r = pg.run_impl(c)
+        small = dict(c, records=f"one record of {L} samples (seeded noise)")
+        ctx.supporting["long_window_parseval_cases"] = ctx.supporting.get("long_window_parseval_cases", 0) + 1
+        if isinstance(r["result"], str) or not r["fft_after"].isdigit():
+            ctx.violation("psd-parseval", dict(case=small, error=r.get("error")), seam="process(PsdProcessingSettings) on a long window")
+            continue
+        n = int(r["fft_after"]); fs = 1 / dt
+        tw = tukey(L, w); U = np.mean(tw ** 2)
+        for k, comp in enumerate(("ns", "ew", "vt")):
+            x = np.array(rec[comp]) * tw
+            X = np.fft.rfft(x, max(n, L))
+            lhs = np.sum(r["result"][k][1:(n + 1) // 2 if n % 2 else n // 2]) * (fs / n)
+            rhs = np.sum(x ** 2) / (L * U) - (abs(X[0]) ** 2 + (abs(X[-1]) ** 2 if n % 2 == 0 else 0.0)) / (L * n * U)
+            if n < L or not close(lhs, rhs, float(np.sum(x ** 2) / (L * U)), 1e-9):
+                ctx.violation("psd-parseval", dict(case=small, component=comp, n_samples=L, fft_length=n, lhs=float(lhs), rhs=float(rhs)),
+                              seam="process(PsdProcessingSettings) on a long window")
+                break
+
+
 def parseval_probe(ctx, rng):
     """clause 1 on the implementation: sum of the one-sided density strictly between 0 Hz and Nyquist"""
     import hvsrpy
@@ -185,6 +212,7 @@ def run(ctx):
                                model=(mo["result"] if isinstance(mo["result"], str) else np.asarray(mo["result"]).tolist()), model_error=mo.get("error")),
                           seam="hvsrpy.process")
     parseval_probe(ctx, rng)
+    long_window_parseval(ctx, np.random.default_rng(ctx.seed + 17))
     preprocess_transforms(ctx, rng)
 
 
